@@ -242,6 +242,9 @@ var jsTypes = []jsType{
 		direct: func(b []byte) (string, error) {
 			var v tex.JsByte
 			err := v.UnmarshalJSON(b)
+			if err == nil {
+				holdDec("JsByte.UnmarshalJSON", string(b), v)
+			}
 			return fmtBytes(v), err
 		},
 		viaLib: func(um func([]byte, interface{}) error, doc []byte) (string, error) {
@@ -522,7 +525,8 @@ func monitorDecode(t *jsType, tok []byte, res string) []corr.Hit {
 // A []byte an encoder returned belongs to the caller: later encodes (of this or any other value, on this or another
 // goroutine) must not change it. Every such slice is kept with a private copy and compared again at the end of the script.
 type heldResult struct {
-	site string // "JsByte.ToJS", "JsInt64.MarshalJSON", …
+	dec  bool   // the slice is a decoded value (Scan / UnmarshalJSON / FromString) rather than an encoder's output
+	site string // "JsByte.ToJS", "JsInt64.MarshalJSON", "Base64Bytes.Scan", …
 	of   string // the value encoded
 	raw  []byte // exactly the slice the encoder returned
 	copy []byte
@@ -531,7 +535,15 @@ type heldResult struct {
 var held []heldResult
 
 func hold(site, of string, raw []byte) {
-	held = append(held, heldResult{site, of, raw, append([]byte{}, raw...)})
+	held = append(held, heldResult{false, site, of, raw, append([]byte{}, raw...)})
+}
+
+// holdDec: a decoded slice-typed value belongs to the caller just as well: a later decode must not change it.
+func holdDec(site, of string, raw []byte) {
+	if len(of) > 60 {
+		of = of[:60] + "…"
+	}
+	held = append(held, heldResult{true, site, of, raw, append([]byte{}, raw...)})
 }
 
 // checkHeld: run a few more encodes (here and on a second goroutine), then compare every held slice with its copy.
@@ -549,6 +561,12 @@ func checkHeld() []corr.Hit {
 		_, _ = tex.JsUInt64(12345678901234567890).MarshalJSON()
 		_, _ = tex.Duration(-90000000001).MarshalJSON()
 		_, _ = tex.JsNanoTime(time.Unix(0, 1234567890123456789)).MarshalJSON()
+		var b tex.Base64Bytes
+		_ = b.Scan("WFlaWFlaWFlaWFlaWFlaWFlaWFlaWFla")
+		_ = b.Scan([]byte("eHl6eHl6eHl6eHl6"))
+		var j tex.JsByte
+		_ = j.UnmarshalJSON([]byte(`"9/8/7/6/5/4/3/2/1/9/8/7/6/5/4/3/2/1"`))
+		_ = j.FromString("5/4/3/2/1/5/4/3/2/1")
 	}
 	churn()
 	done := make(chan struct{})
@@ -559,8 +577,17 @@ func checkHeld() []corr.Hit {
 	for _, h := range held {
 		if !bytes.Equal(h.raw, h.copy) && !seen[h.site] {
 			seen[h.site] = true
-			hits = append(hits, corr.Hit{Key: "C20:" + h.site + ":earlier-result-changed-by-later-encode",
-				What: fmt.Sprintf("%s of %s returned %q; after later encodes the same slice reads %q", h.site, h.of, h.copy, h.raw)})
+			what, show := "encode", func(b []byte) string { return fmt.Sprintf("%q", b) }
+			if h.dec {
+				what, show = "decode", func(b []byte) string {
+					if len(b) > 24 {
+						return fmt.Sprintf("%v…", b[:24])
+					}
+					return fmt.Sprintf("%v", b)
+				}
+			}
+			hits = append(hits, corr.Hit{Key: "C20:" + h.site + ":earlier-result-changed-by-later-" + what,
+				What: fmt.Sprintf("%s of %s returned %s; after later %ss the same slice reads %s", h.site, h.of, show(h.copy), what, show(h.raw))})
 		}
 	}
 	held = held[:0]
@@ -755,6 +782,9 @@ func runByteFromStr(arg string) (string, []corr.Hit) {
 	res := safely(func() (string, error) {
 		var v tex.JsByte
 		err := v.FromString(string(tok))
+		if err == nil {
+			holdDec("JsByte.FromString", string(tok), v)
+		}
 		return fmtBytes(v), err
 	})
 	// same reference as the JSON form of a quoted token
@@ -869,6 +899,9 @@ func runB64(op, arg string) (string, []corr.Hit) {
 				err = v.Scan(string(s))
 			} else {
 				err = v.Scan(s)
+			}
+			if err == nil {
+				holdDec("Base64Bytes.Scan", string(s), v)
 			}
 			return "x:" + hex.EncodeToString(v), err
 		})
